@@ -20,6 +20,8 @@ RULE = ("(a) operation histories on a real Context object run in lock-step with 
         "fixtures, use_or_create_param, user-mode blocks that raise; (b) real runs in which hooks and steps at every level "
         "set attributes (unique and shadowing names) and register cleanups (plain / with args / layer=), ~10% raising, "
         "with --stop and failing steps; the recorded event log is checked offline against the scope model; "
+        "(b') part of the runs carry user data with the names of the context attributes in use (absent stays absent), part hand every tag "
+        "to use_fixture_by_tag() in before_tag (one setup and one teardown per tagged element); "
         "(c) execute_steps from steps that have their own text/table. A case = one history or one run; non-trivial = "
         "history with a pop after >=1 registration or a run with >=2 cleanup registrations; distinct by hash.")
 ASSUMPTIONS = [
